@@ -3,6 +3,8 @@ Require Extraction.
 Require Import ExtrOcamlBasic.
 From Coq Require Import ZArith QArith List.
 From Pandora Require Import Lib.Value Lib.Arr Lib.Blocks Model.Filters Model.FiltersCheck Gen.Constants.
+From Pandora Require Import Lib.NpNd Model.FiltersNp.
+From Pandora Require Gen.BlockLoops Gen.FilterKernels.
 Import ListNotations.
 Open Scope Z_scope.
 
@@ -89,6 +91,52 @@ Definition dispatch (fid : Z) (v : value) : value :=
     let ny := as_z (vnth 1 v) in
     let nx := as_z (vnth 2 v) in
     of_b (median_map_spec_b rad ny nx (dec_map (vnth 3 v)) (dec_map (vnth 4 v)))
+  (* 7 / 8 / 9: the GENERATED code (Gen/FilterKernels.v over the numpy combinators of Lib/NpNd.v, the
+     block loop = BlockSkeleton.exec of the generated skeleton) run as it is, error flag first *)
+  | 7 => (* generated median filter_disparity: (w ny nx disp mask) -> (err disp mask) *)
+    let w := as_z (vnth 0 v) in
+    let ny := as_z (vnth 1 v) in
+    let nx := as_z (vnth 2 v) in
+    let ds := mkDs (nd2 ny nx (dec_map (vnth 3 v))) (nd2 ny nx (dec_zmap (vnth 4 v))) (fun _ => nd2 0 0 (fun _ _ => None)) in
+    let ds' := FilterKernels.g_median_filter_disparity
+                 (FilterKernels.g_median_filter (skel_block_loop BlockLoops.median_filter)) w ds in
+    VL [of_b (err (ds_disp ds') || err (ds_mask ds')); enc_map ny nx (fun2 (ds_disp ds')); enc_zmap ny nx (fun2 (ds_mask ds'))]
+  | 8 => (* generated bilateral filter_disparity: (ny nx sigma_space gs rk_table disp mask) -> (err disp mask);
+            gs = the Gaussian of sigma_space at sqrt(n), n = 0, 1, ... (DATA) *)
+    let ny := as_z (vnth 0 v) in
+    let nx := as_z (vnth 1 v) in
+    let sigma := as_q (vnth 2 v) in
+    let gs := map as_q (as_l (vnth 3 v)) in
+    let rk := rk_of_table (map (fun e => (as_q (vnth 0 e), as_q (vnth 1 e))) (as_l (vnth 4 v))) in
+    let ds := mkDs (nd2 ny nx (dec_map (vnth 5 v))) (nd2 ny nx (dec_zmap (vnth 6 v))) (fun _ => nd2 0 0 (fun _ _ => None)) in
+    let ds' := FilterKernels.g_bilateral_filter_disparity
+                 (FilterKernels.g_filter_bilateral (fun _ x => rk x) (fun _ n => nth (Z.to_nat n) gs 0%Q)
+                                                   (skel_block_loop BlockLoops.filter_bilateral)) sigma 0%Q ds in
+    VL [of_b (err (ds_disp ds') || err (ds_mask ds')); enc_map_raw ny nx (fun2 (ds_disp ds')); enc_zmap ny nx (fun2 (ds_mask ds'))]
+  | 9 => (* generated gauss_spatial_kernel: (win gs) -> (err table) *)
+    let win := as_z (vnth 0 v) in
+    let gs := map as_q (as_l (vnth 1 v)) in
+    let G := FilterKernels.g_gauss_spatial_kernel (fun _ n => nth (Z.to_nat n) gs 0%Q) win 0%Q in
+    VL [of_b (err G); enc_map win win (fun2 G)]
+  | 10 => (* generated median_for_intervals filter_disparity, same wire as fid 3 (B ignored): -> (err disp inf sup mask) *)
+    let w := as_z (vnth 1 v) in
+    let ny := as_z (vnth 2 v) in
+    let nx := as_z (vnth 3 v) in
+    let '(regb, hreg) :=
+      match as_l (vnth 4 v) with
+      | [i2; s2; rm] =>
+        (true, fun (_ _ _ : nd oq) => (nd2 ny nx (dec_map i2), nd2 ny nx (dec_map s2), nd2 ny nx (of_rows false (dec_rows as_b rm))))
+      | _ => (false, fun (a b _ : nd oq) => (a, b, nd2 ny nx (fun _ _ => false)))
+      end in
+    let binf := nd2 ny nx (dec_map (vnth 6 v)) in
+    let bsup := nd2 ny nx (dec_map (vnth 7 v)) in
+    let ds := mkDs (nd2 ny nx (dec_map (vnth 5 v))) (nd2 ny nx (dec_zmap (vnth 8 v)))
+                   (fun k => match k with KInf => binf | KSup => bsup | KAmb => nd2 ny nx (fun _ _ => None) end) in
+    let ds' := FilterKernels.g_mfi_filter_disparity
+                 (FilterKernels.g_median_filter (skel_block_loop BlockLoops.median_filter)) hreg w regb ds in
+    VL [of_b (err (ds_disp ds') || err (ds_mask ds') || err (ds_band ds' KInf) || err (ds_band ds' KSup));
+        enc_map ny nx (fun2 (ds_disp ds')); enc_map ny nx (fun2 (ds_band ds' KInf)); enc_map ny nx (fun2 (ds_band ds' KSup));
+        enc_zmap ny nx (fun2 (ds_mask ds'))]
   | _ => VL [VZ (-1)]
   end.
 
